@@ -31,6 +31,11 @@ class Checker:
         self.dec = NMEA2000Decoder()
         self.enc = NMEA2000Encoder()
         self.db = canboat.db()
+        # another decoder of the process, built the same way, is reconfigured in place by its owner (units switched at runtime)
+        from nmea2000.consts import PhysicalQuantities as _PQ
+        self.other = NMEA2000Decoder()
+        if isinstance(getattr(self.other, "preferred_units", None), dict):
+            self.other.preferred_units.update({_PQ.TEMPERATURE: "c", _PQ.ANGLE: "deg", _PQ.SPEED: "kts", _PQ.PRESSURE: "bar"})
 
     def roundtrip(self, d, payload, nbytes, classes=()):
         ctx = self.ctx
@@ -62,6 +67,26 @@ class Checker:
                     out.append((f"C02|ebyte-differs|{d.key}", f"encode_ebyte data {data2.hex()} != encode_actisense payload {data.hex()}", case))
             except Exception as e:
                 out.append((f"C02|encode-error-ebyte|{d.key}", f"encode_ebyte failed: {e}", case))
+        if not out and payload % 7 == 3:
+            # the application writes into the message it was handed (shifts a value, clears another) ... and the same payload arrives
+            # again: its round trip must not notice
+            for k, fld in enumerate(msg.fields):
+                if k % 2:
+                    fld.value = fld.raw_value = None
+                elif isinstance(fld.value, (int, float)) and not isinstance(fld.value, bool):
+                    fld.value = fld.raw_value = fld.value + 1
+            try:
+                msg2 = self.dec.decode_basic_string(gen.basic_string(d.pgn, payload, nbytes), already_combined=True)
+                text2 = self.enc.encode_actisense(msg2)
+                p2 = text2.split(" ")
+                data_again = bytes.fromhex(p2[2]) if len(p2) > 2 else b""
+            except Exception as e:
+                data_again = None
+                out.append((f"C02|repeat-after-caller-edit|{d.key}", f"the same payload decoded again after the caller edited the first result: {type(e).__name__}: {e}", case))
+            if data_again is not None and data_again != data:
+                out.append((f"C02|repeat-after-caller-edit|{d.key}", f"the same payload decoded again after the caller edited the first result re-encodes as "
+                            f"{data_again.hex()} instead of {data.hex()}", dict(case, repeat_after_edit=True)))
+            self.ctx.klass("repeat_after_caller_edit")
         return out
 
     def _culprit(self, d, msg, e):
